@@ -37,6 +37,11 @@ def correspondence(r):
         r.count("loc-table-len:" + ("0" if not c["tab"] else "1-8" if len(c["tab"]) <= 8 else "9+"))
     C.correspond(r, "positions311", HEADER, "positions311", t311,
                  lambda c: f"obs_positions311 {C.zlit(c['first'])} {C.blist(c['tab'])}", modules=MODS, describe=describe("Code311.co_positions / parse_location_entries"))
+    # parse_positions(), the per-code-unit twin of co_positions(), on encoder-made tables: the expansion of the model's entries
+    units = [{"first": f, "tab": G.encode311(es)} for es, f in G.entries311(rnd, 150 * scale)]
+    C.correspond(r, "positions311_units", HEADER + "\nFrom Xdis Require Import Proofs.Loc311Proofs.", "positions311_units", units,
+                 lambda c: f"(match parse_location_entries {C.zlit(c['first'])} {C.blist(c['tab'])} with Ok es => obs_positions (expand_entries es) | Err e => [1; err_code e] end)",
+                 modules=MODS, describe=describe("code311.parse_positions (per code unit)"))
     C.correspond(r, "colines311", HEADER, "colines311", t311,
                  lambda c: f"obs_colines311 {C.zlit(c['first'])} {C.blist(c['tab'])}", modules=MODS, describe=describe("Code311.co_lines / parse_linetable"))
     exc = []
